@@ -168,6 +168,11 @@ func (b *TBlock) MsgWithTxs(txs []*wire.MsgTx) *wire.MsgBlock {
 
 // ParseMsg converts a block message to the streaming form used on real connections.
 func ParseMsg(m *wire.MsgBlock) (*wire.MsgParseBlock, error) {
+	if len(m.Transactions) == 0 {
+		// the dependency's streaming decoder recurses forever on a block without transactions; spynode
+		// never builds that form itself (it reads MsgBlock), so the harness must not either
+		return nil, fmt.Errorf("no transactions")
+	}
 	var buf bytes.Buffer
 	if err := m.BtcEncode(&buf, wire.ProtocolVersion); err != nil {
 		return nil, err
